@@ -34,4 +34,4 @@ def partitions(tier, seed):
                                  table_classes=['Queue.Declare'],
                                  table_tags=buffers.TAGS, timeout=150)
     return buffers.parts_for('c09', tier, raw_max=16, m_extra=(2, 5, 8), hdr_extra=(2, 3, 4, 5),
-                             table_classes=TABLE_CLASSES_ALL, table_tags=buffers.TAGS, timeout=900)
+                             table_classes=TABLE_CLASSES_ALL, table_tags=buffers.TAGS, timeout=480)
